@@ -189,6 +189,7 @@ def run_guarded(mod, case, allowance=30):
     signal.signal(signal.SIGALRM, _alarm)
     signal.alarm(allowance)
     devices.CTX.fired = {}
+    devices.CTX.slept_ms = 0
     devices.CTX.task = 'ctor'
     devices.CTX.unraisable = []
     sys.unraisablehook = _unraisable
@@ -203,6 +204,8 @@ def run_guarded(mod, case, allowance=30):
     if devices.CTX.unraisable:
         out['probes']['unraisable-in-finaliser'] = len(devices.CTX.unraisable)
         out['extra']['unraisable'] = devices.CTX.unraisable[:3]
+    if devices.CTX.slept_ms and not out.get('sim_seconds'):
+        out['sim_seconds'] = devices.CTX.slept_ms / 1000.0
     # faults counted by the devices
     for k, v in devices.CTX.fired.items():
         out['fired'][k] = out['fired'].get(k, 0) + v
